@@ -207,6 +207,11 @@ class StoreModel:
                         env[k] = a if a is not None else b  # type: ignore
                 if r1 is not None and r2 is not None:
                     return r1 if r1 == r2 else ("phi", r1, r2)
+                # a branch that always leaves (return / raise): the rest runs under the negated test
+                if _terminates(st.body) and not _terminates(st.orelse):
+                    conds = conds + [(st.test, False)]
+                elif _terminates(st.orelse) and st.orelse and not _terminates(st.body):
+                    conds = conds + [(st.test, True)]
                 if ret is None:
                     ret = r1 if r1 is not None else r2
                     if ret is not None and (r1 is None) != (r2 is None):
@@ -607,6 +612,17 @@ class StoreModel:
         if not found:
             out.append(Effect("WRITE_INPLACE" if method == "serialize_into" else "READ", flatten(loc), e, f, conds,
                               extra={"how": f"codec.{method} (no implementation summarised)"}, handlers=list(handlers)))
+
+
+def _terminates(stmts: List[ast.stmt]) -> bool:
+    if not stmts:
+        return False
+    last = stmts[-1]
+    if isinstance(last, (ast.Return, ast.Raise, ast.Continue, ast.Break)):
+        return True
+    if isinstance(last, ast.If):
+        return _terminates(last.body) and _terminates(last.orelse)
+    return False
 
 
 def _is_path(t: Any) -> bool:
